@@ -3,7 +3,8 @@
      0  satisfying(1 < _ < 9)            raises on values that cannot be compared with an int
      1  satisfying(\x -> x)              truthiness, never raises
      2  satisfying(\x -> len(x) == 2)    raises on non-sequences
-     3  satisfying(\x -> x != 5)         never raises *)
+     3  satisfying(\x -> x != 5)         never raises
+     4  satisfying(\x -> x is list and (len(x) == 0 or x[0] != 5))   never raises *)
 From Coq Require Import ZArith NArith List Bool.
 From NV Require Import Common.Outcome Lang.Types Lang.Pattern.
 Import ListNotations.
@@ -15,11 +16,19 @@ Definition seq_len (v : val) : option nat :=
   | _ => match elements v with Some es => Some (length es) | None => None end
   end.
 
+Definition sat_list_head (v : val) : bool :=
+  match v with
+  | VList [] => true
+  | VList (h :: _) => negb (veq h (vint 5))
+  | _ => false
+  end.
+
 Definition sat_std (pid : N) (v : val) : outcome bool :=
   match pid with
   | 0%N => cmp_chain [CLt; CLt] [vint 1; v; vint 9]
   | 1%N => Ok (truthy v)
   | 2%N => match seq_len v with Some n => Ok (Nat.eqb n 2) | None => Err EType end
   | 3%N => Ok (negb (veq v (vint 5)))
+  | 4%N => Ok (sat_list_head v)
   | _ => Err EOther
   end.
